@@ -98,6 +98,10 @@ class Gen:
             return [rs.choice(["lt", "ge"]), self.vatom(env), ["k", rs.range(1, 15)]]
         if c == 5:
             return ["eq", self.vatom(env), self.vatom(env)]
+        if c == 6 and env.get("calls_ok") and self.calls < 2 and rs.below(2):
+            # a helper with two return paths, each returning a different computed boolean (the merged result is one value)
+            self.calls += 1
+            return ["cmpsel", self.cond(env, depth + 1), self.vatom(env), self.vatom(env)]
         if c == 6:
             return ["not", self.cond(env, depth + 1)]
         if c < 9:
@@ -440,6 +444,8 @@ def r_c(c):
         return f"(not {r_c(c[1])})"
     if k in ("and", "or"):
         return f"({r_c(c[1])} {k} {r_c(c[2])})"
+    if k == "cmpsel":
+        return f"cmpsel({r_c(c[1])}, {r_v(c[2])}, {r_v(c[3])})"
     op = {"eq": "==", "ne": "!=", "lt": "<", "ge": ">="}[k]
     return f"({r_v(c[1])} {op} {r_v(c[2])})"
 
@@ -541,6 +547,12 @@ def render(prog, attrs=None):
         "        if x == y:",
         "            return y + 1",
         "    return y",
+        "",
+        "def cmpsel(c, x, y):",
+        "    if c:",
+        "        return x == y",
+        "    else:",
+        "        return x < y",
         "",
         "class E(cohdl.Entity):",
         "    clk = Port.input(Bit)",
